@@ -193,6 +193,9 @@ func (ex *Exec) atReturn(fn *ssa.Function, c *Contract, pre, post *State, vars m
 		ex.oblige(stq, kind, name, props, goal, text)
 	}
 	for _, cl := range c.byKind("ensures") {
+		if !relevant(cl, ex.prop) {
+			continue
+		}
 		t, err := ctx.EvalBool(cl.E)
 		if err != nil {
 			ex.oblige(post, "binding", c.Key+"#binding", cl.Props, TFalse, fmt.Sprintf("ensures[%s]: %v", cl.Label, err))
@@ -202,6 +205,9 @@ func (ex *Exec) atReturn(fn *ssa.Function, c *Contract, pre, post *State, vars m
 	}
 	for _, kind := range []string{"emits", "calls"} {
 		for _, cl := range c.byKind(kind) {
+			if !relevant(cl, ex.prop) {
+				continue
+			}
 			ident := "events"
 			if kind == "calls" {
 				ident = "calls"
@@ -217,7 +223,13 @@ func (ex *Exec) atReturn(fn *ssa.Function, c *Contract, pre, post *State, vars m
 	}
 	// frame: every abstract component not named by a modifies clause is unchanged; named keyed ones only at the key
 	mods := c.byKind("modifies")
-	if len(mods) > 0 {
+	rel := false
+	for _, cl := range mods {
+		if relevant(cl, ex.prop) {
+			rel = true
+		}
+	}
+	if len(mods) > 0 && rel {
 		ex.frameObligations(c, ctx, mods, post)
 	}
 }
@@ -305,4 +317,76 @@ func (ex *Exec) enterLoopHeader(st *State, b *ssa.BasicBlock, prev *ssa.BasicBlo
 	n := st.loopSeen[b]
 	st.loopSeen[b] = n + 1
 	return ex.loopCut(st, b, prev, k)
+}
+
+func (ex *Exec) attesterType() types.Type {
+	pkg := ex.pkgs[repoPrefix+"/types"]
+	return pkg.Type("Attester").Type()
+}
+
+// VerifyLemma proves a contract-language lemma: hypotheses ==> goal, one obligation per top-level conjunct.
+func (ex *Exec) VerifyLemma(l *Lemma) {
+	ex.top = nil
+	ex.mode = "L3"
+	st := ex.newState("lem")
+	ctx := &EvalCtx{ex: ex, pre: st, post: st, vars: map[string]Value{}, bound: map[string]Value{}}
+	for _, v := range l.Vars {
+		func() {
+			defer func() {
+				if r := recover(); r != nil {
+					if ee, ok := r.(evalErr); ok {
+						ex.obls = append(ex.obls, &Obligation{Name: "lemma." + l.Name + "#binding", Kind: "binding", Props: propSet(l.Props), Goal: TFalse, Note: ee.msg, Res: SolverResult{Status: "sat", Solver: "syntactic"}})
+						return
+					}
+					panic(r)
+				}
+			}()
+			sort, mk := ctx.boundSort(v[1])
+			t := Fresh("lem."+v[0], sort)
+			if sort == SBytes {
+				st.assume(App("canon", SBool, t))
+				st.assume(BVUle(Blen(t), maxLen))
+			}
+			if v[1] == "amount" {
+				st.assume(bigInRange(t))
+			}
+			ctx.vars[v[0]] = mk(t)
+		}()
+	}
+	name := "lemma." + l.Name
+	for _, h := range l.Hyps {
+		t, err := ctx.EvalBool(h)
+		if err != nil {
+			ex.obls = append(ex.obls, &Obligation{Name: name + "#binding", Kind: "binding", Props: propSet(l.Props), Goal: TFalse, Note: err.Error(), Res: SolverResult{Status: "sat", Solver: "syntactic"}})
+			return
+		}
+		st.assume(t)
+	}
+	var conjuncts []*Expr
+	var split func(e *Expr)
+	split = func(e *Expr) {
+		if e.Op == "binary" && e.Name == "&&" {
+			split(e.Args[0])
+			split(e.Args[1])
+			return
+		}
+		conjuncts = append(conjuncts, e)
+	}
+	split(l.Goal)
+	for i, cj := range conjuncts {
+		t, err := ctx.EvalBool(cj)
+		if err != nil {
+			ex.obls = append(ex.obls, &Obligation{Name: name + "#binding", Kind: "binding", Props: propSet(l.Props), Goal: TFalse, Note: err.Error(), Res: SolverResult{Status: "sat", Solver: "syntactic"}})
+			return
+		}
+		n := name
+		if len(conjuncts) > 1 {
+			n = fmt.Sprintf("%s[%d]", name, i)
+		}
+		o := &Obligation{Name: n, Kind: "lemma", Props: propSet(l.Props), Fn: name, Goal: t, Assumes: append(append([]*Term(nil), st.pc...), ctx.side...), Note: cj.String()}
+		if t == TTrue {
+			o.Res = SolverResult{Status: "unsat", Solver: "syntactic"}
+		}
+		ex.obls = append(ex.obls, o)
+	}
 }
